@@ -213,7 +213,13 @@ impl Expression {
                     }
                     _ => return Err(EvaluateTypeError::InvalidModule),
                 };
-                let ty = module.type_registry.combine_modifier(ty, mat_mod);
+                // The matrix orientation does not apply to components of the matrix
+                let mut component_modifier = mat_mod;
+                component_modifier.row_major = false;
+                component_modifier.column_major = false;
+                let ty = module
+                    .type_registry
+                    .combine_modifier(ty, component_modifier);
                 Ok(ExpressionType(ty, vt))
             }
             Expression::ArraySubscript(ref array, _) => {
